@@ -9,7 +9,7 @@ for p in "$@"; do
   out=$(./run.sh quick "$p" 2>&1); rc=$?
   echo "$p rc=$rc :: $(echo "$out" | grep -E "VIOLATION|KNOWN|INFRA" | head -2 | tr '\n' ' ') | $(echo "$out" | tail -1)"
 done
-cd /repo && git checkout -- . && git status --short | head -3
+cd /repo && git checkout -- . && git clean -fdq -- src rsactor-derive tests examples && git status --short | head -3
 # the evidence files written during a seeded run describe the seeded tree: put the clean ones back
 cd /verif && for p in "$@"; do cp -f build/evidence_keep/$p.json evidence/ 2>/dev/null; done
 cd /verif/lean && ../tools/extract/target/release/extract /repo Rsactor/Extracted.lean /verif/build/extract.json >/dev/null 2>&1
